@@ -344,38 +344,51 @@ func C12(p *ir.Program, r *report.R) {
 		c.MustFind("K4", "blockchain.(*BlockchainReactor).poolRoutine/VerifyCommit", fn, n, "VerifyCommit call")
 	}
 
-	// (e2) block and part set change together. addProposalBlockPart decodes a completed set INTO
-	// cs.ProposalBlock; a Block object left over from another proposal keeps its cached hash, so the
-	// reassembled bytes would be reported under the old block's identity. Every assignment of
-	// ProposalBlockParts is therefore paired with one of ProposalBlock: an empty set with nil, a block's
-	// own parts with that block.
+	// (d2) the duplicate test and the insertion of a part are ONE critical section: with the lock
+	// released in between (to verify the proof outside it), two deliveries of the same part both pass
+	// the test and both count, and the set is "complete" with a part missing
 	{
-		bf := p.Field("consensus/types", "RoundState.ProposalBlock")
-		pf := p.Field("consensus/types", "RoundState.ProposalBlockParts")
-		n := 0
-		for _, ps := range p.Stores(pf) {
-			if strings.HasSuffix(p.Pos(ps.Fn.Pos()), "_test.go") || ps.Kind != "store" || ir.RelPkg(ps.Fn.Pkg.Pkg) != "consensus" {
-				continue
-			}
-			n++
-			pv := ir.Render(ps.Val)
-			paired, bv := false, ""
-			for _, bs := range p.Stores(bf) {
-				if bs.Kind == "store" && bs.Instr.Block() == ps.Instr.Block() && bs.Instr.Parent() == ps.Instr.Parent() {
-					paired, bv = true, ir.Render(bs.Val)
+		ap := p.Func("types", "PartSet.AddPart")
+		var checks, inserts, unlocks []ssa.Instruction
+		ir.Instrs(ap, func(in ssa.Instruction) {
+			switch x := in.(type) {
+			case *ssa.UnOp:
+				if ia, ok := x.X.(*ssa.IndexAddr); ok && strings.HasSuffix(ir.Render(ia.X), "ps.parts") {
+					checks = append(checks, in)
+				}
+			case *ssa.Store:
+				if ia, ok := x.Addr.(*ssa.IndexAddr); ok && strings.HasSuffix(ir.Render(ia.X), "ps.parts") {
+					inserts = append(inserts, in)
+				}
+			case *ssa.Call:
+				if op, ok := lockOpOf(in); ok && !op.Acquire {
+					unlocks = append(unlocks, in)
 				}
 			}
-			okPair := paired
-			if paired && (pv == "nil" || strings.HasPrefix(pv, "types.NewPartSetFromHeader(")) {
-				okPair = bv == "nil"
-			} else if paired {
-				okPair = bv != "nil"
+		})
+		if c.MustFind("K10", "types.(*PartSet).AddPart/check-and-insert", ap, len(checks)*len(inserts), "duplicate test and insertion of ps.parts[i]") {
+			bad := ""
+			for _, ch := range checks {
+				for _, u := range unlocks {
+					if f1, _, _ := ir.FindPath(ir.PathQuery{From: ir.At(ch), Target: func(x ssa.Instruction) bool { return x == u }}); !f1 {
+						continue
+					}
+					for _, ins := range inserts {
+						if f2, _, _ := ir.FindPath(ir.PathQuery{From: ir.At(u), Target: func(x ssa.Instruction) bool { return x == ins }}); f2 {
+							bad = fmt.Sprintf("the lock is released at %s between the test at %s and the insertion at %s", p.InstrPos(u), p.InstrPos(ch), p.InstrPos(ins))
+						}
+					}
+				}
 			}
-			r.Check("K5", "consensus/proposal-block-and-parts-change-together/"+ir.FuncName(ir.EnclosingTop(ps.Fn)), p.InstrPos(ps.Instr), okPair,
-				fmt.Sprintf("ProposalBlockParts = %s is paired with ProposalBlock = %s (an empty part set with nil)", short(pv, 60), short(bv, 60)))
+			r.Check("K10", "types.(*PartSet).AddPart/check-and-insert-in-one-critical-section", p.Pos(ap.Pos()), bad == "", "no unlock between the duplicate test and the insertion. "+bad)
 		}
-		r.Check("K5", "consensus/proposal-block-and-parts-change-together/sites", "-", n >= 6, fmt.Sprintf("%d assignments of ProposalBlockParts (confirmed by hand: 6)", n))
 	}
+
+	// (e2) block and part set change together
+	proposalBlockAndPartsChangeTogether(c)
+
+	// (b2) the vote-tally key of a block id is lossless (shared with C03)
+	blockIDKeyLossless(c)
 
 	// (f) stored parts: a block is served and reloaded from parts stored under (height, index); the key
 	// must determine both, and the key families of the store must not overlap
@@ -608,3 +621,48 @@ func fieldOf(v ssa.Value) (*types.Var, ssa.Value) {
 }
 
 var _ = report.Discharged
+
+// proposalBlockAndPartsChangeTogether (shared by C02 and C12): addProposalBlockPart decodes a completed
+// set INTO cs.ProposalBlock; a Block object left over from another proposal keeps its cached hash, so
+// the reassembled bytes would be reported under the old block's identity (and a node that holds the
+// wrong block can never finalise the committed one). Every assignment of ProposalBlockParts is paired
+// with one of ProposalBlock: an empty set with nil, a block's own parts with that block.
+func proposalBlockAndPartsChangeTogether(c C) {
+	p, r := c.P, c.R
+	bf := p.Field("consensus/types", "RoundState.ProposalBlock")
+	pf := p.Field("consensus/types", "RoundState.ProposalBlockParts")
+	n := 0
+	for _, ps := range p.Stores(pf) {
+		if strings.HasSuffix(p.Pos(ps.Fn.Pos()), "_test.go") || ps.Kind != "store" || ir.RelPkg(ps.Fn.Pkg.Pkg) != "consensus" {
+			continue
+		}
+		n++
+		pv := ir.Render(ps.Val)
+		paired, bv := false, ""
+		for _, bs := range p.Stores(bf) {
+			if bs.Kind == "store" && bs.Instr.Block() == ps.Instr.Block() && bs.Instr.Parent() == ps.Instr.Parent() {
+				paired, bv = true, ir.Render(bs.Val)
+			}
+		}
+		okPair := paired
+		if paired && (pv == "nil" || strings.HasPrefix(pv, "types.NewPartSetFromHeader(")) {
+			okPair = bv == "nil"
+		} else if paired {
+			okPair = bv != "nil"
+		}
+		r.Check("K5", "consensus/proposal-block-and-parts-change-together/"+ir.FuncName(ir.EnclosingTop(ps.Fn)), p.InstrPos(ps.Instr), okPair,
+			fmt.Sprintf("ProposalBlockParts = %s is paired with ProposalBlock = %s (an empty part set with nil)", short(pv, 60), short(bv, 60)))
+	}
+	r.Check("K5", "consensus/proposal-block-and-parts-change-together/sites", "-", n >= 6, fmt.Sprintf("%d assignments of ProposalBlockParts (confirmed by hand: 6)", n))
+}
+
+// blockIDKeyLossless (shared by C03 and C12): votes are counted per BlockID.Key(); a key that
+// abbreviates the part-set hash (PartSetHeader.String() prints a 6-byte fingerprint) counts two ids together.
+func blockIDKeyLossless(c C) {
+	p, r := c.P, c.R
+	kf := p.Func("types", "BlockID.Key")
+	for _, rt := range ir.Returns(kf) {
+		okKey := ir.Render(rt.Results[0]) == "(common.Hash.String(blockID.Hash) + ser.EncodeToBytes(blockID.PartsHeader)#0)"
+		r.Check("K11", "types.BlockID.Key/lossless", p.InstrPos(rt.Instr), okKey, "Key = full hex of the hash + the serialised part-set header: "+short(ir.Render(rt.Results[0]), 140))
+	}
+}
